@@ -10,7 +10,17 @@
 //!       not report a clean end (Failed / Closed / close_reason), the stimulus was repeated
 //!       K = 5 times, and a canary task shows that the scheduler was not starved. The statement
 //!       forbids hangs, not protocol-level refusal, so a clean failure is accepted;
-//!  (iii) live-heap growth of the campaign's threads (tagged allocator) ≤ 8 MiB + 64·Σlen.
+//!  (iii) live-heap growth of the campaign's threads (tagged allocator) ≤ 8 MiB + 64·Σlen;
+//!  (iv) largest single allocation: while the campaign feeds inputs of at most L bytes each, no
+//!       block larger than 256 KiB + 64·L + 2·H is requested from the allocator *by rustrtc
+//!       code* on the campaign's threads, H being the campaign's live-heap growth at that
+//!       moment (a container that holds accumulated, history-proportional state – a per-SSRC
+//!       table, a queue – may double; H itself is bounded by (iii)). The allocator records
+//!       every such block with a backtrace; a block without a rustrtc frame on its stack is
+//!       the harness's own and is only counted.
+//!       A growth bound over a whole campaign hides a single reservation driven by a wire
+//!       length field (16 MiB for a 26-byte datagram stays below 8 MiB + 64·Σlen after a few
+//!       thousand inputs); the largest block seen per target is written to the evidence.
 //! Watchdog expiry, socket errors, a handshake that could not be set up: inconclusive.
 
 use super::totality::{LIVE_MODE, LIVE_PANICS, PanicSite};
@@ -38,6 +48,8 @@ use tokio::sync::{mpsc, watch};
 
 pub const LIVE_HEAP_SLACK: i64 = 8 << 20;
 pub const LIVE_HEAP_FACTOR: i64 = 64;
+pub const SINGLE_ALLOC_SLACK: usize = 256 << 10;
+pub const SINGLE_ALLOC_FACTOR: usize = 64;
 
 // ------------------------------------------------------------------ campaign plumbing
 
@@ -59,6 +71,8 @@ pub struct Camp {
     pub seen: Vec<(String, String)>,
     pub fed_bytes: u64,
     pub fed_inputs: u64,
+    /// longest single input fed so far (L of the single-allocation bound)
+    pub max_input_len: usize,
     pub recent: Vec<Vec<u8>>,
     pub heap_base: i64,
     pub canary: Arc<AtomicU64>,
@@ -86,10 +100,34 @@ impl Camp {
     pub fn fed(&mut self, input: &[u8]) {
         self.fed_bytes += input.len() as u64;
         self.fed_inputs += 1;
+        if input.len() > self.max_input_len {
+            self.max_input_len = input.len();
+            alloc_count::set_tag_big_threshold(self.id, single_alloc_bound(self.max_input_len));
+        }
         if self.recent.len() >= 40 {
             self.recent.remove(0);
         }
         self.recent.push(input.to_vec());
+    }
+    /// Bulk accounting for flood campaigns (thousands of small packets): same as `fed` but only
+    /// every `keep`-th input is kept among the recent ones.
+    pub fn fed_quiet(&mut self, input: &[u8], keep: bool) {
+        if keep {
+            self.fed(input);
+        } else {
+            self.fed_bytes += input.len() as u64;
+            self.fed_inputs += 1;
+            if input.len() > self.max_input_len {
+                self.max_input_len = input.len();
+                alloc_count::set_tag_big_threshold(self.id, single_alloc_bound(self.max_input_len));
+            }
+        }
+    }
+    /// What the campaign holds now (set-up, reference exchanges) is not hostile input: heap growth
+    /// (iii) and the live heap of the single-allocation bound (iv) are counted from here.
+    pub fn rebaseline(&mut self) {
+        self.heap_base = alloc_count::tag_net_bytes(self.id);
+        alloc_count::set_tag_heap_base(self.id, self.heap_base);
     }
     pub fn thread_prefix(&self) -> String {
         format!("c07L{}-", self.id)
@@ -111,6 +149,16 @@ impl Camp {
     }
 }
 
+/// Calibration knob (`--single-alloc-slack-kib N`): lowers the slack so that a run lists the
+/// largest legitimate blocks of every target with their call sites. Never set by `./check`.
+static SINGLE_ALLOC_SLACK_OVERRIDE: std::sync::atomic::AtomicUsize = std::sync::atomic::AtomicUsize::new(0);
+
+pub fn single_alloc_bound(max_input_len: usize) -> usize {
+    let o = SINGLE_ALLOC_SLACK_OVERRIDE.load(Ordering::Relaxed);
+    let slack = if o != 0 { o } else { SINGLE_ALLOC_SLACK };
+    slack + SINGLE_ALLOC_FACTOR * max_input_len
+}
+
 pub type Body = fn(Camp) -> Pin<Box<dyn Future<Output = (Camp, End)> + Send>>;
 
 pub struct Spec {
@@ -123,6 +171,7 @@ fn run_one_campaign(id: usize, tier: Tier, seed: u64, spec: &Spec) -> Out {
     let prefix = format!("c07L{id}-");
     alloc_count::set_thread_tag(id);
     alloc_count::reset_tag(id);
+    alloc_count::set_tag_big_threshold(id, single_alloc_bound(0));
     let rt = tokio::runtime::Builder::new_multi_thread()
         .worker_threads(2)
         .thread_name(format!("{prefix}rt"))
@@ -155,6 +204,7 @@ fn run_one_campaign(id: usize, tier: Tier, seed: u64, spec: &Spec) -> Out {
         seen: vec![],
         fed_bytes: 0,
         fed_inputs: 0,
+        max_input_len: 0,
         recent: vec![],
         heap_base: alloc_count::tag_net_bytes(id),
         canary: canary.clone(),
@@ -162,6 +212,35 @@ fn run_one_campaign(id: usize, tier: Tier, seed: u64, spec: &Spec) -> Out {
     };
     let watchdog = Duration::from_secs(tier.pick(70, 240));
     let body = spec.body;
+    // A rustrtc task that blocks inside `poll` (a self-dead-lock) pins one of the two workers.
+    // If that worker was the one that had been parked on the I/O + timer driver, the other one
+    // sleeps on a condition variable and nobody turns the driver any more: every timer of the
+    // campaign – probes, canary, watchdog – would stop. An OS thread outside the runtime
+    // therefore (a) injects an empty task every 5 ms, which wakes a parked worker that then
+    // takes over the driver, and (b) is the watchdog: it aborts the body through a oneshot,
+    // which wakes the `block_on` thread without any help from the runtime.
+    let (abort_tx, abort_rx) = tokio::sync::oneshot::channel::<()>();
+    let ticker_stop = Arc::new(std::sync::atomic::AtomicBool::new(false));
+    let ticker = {
+        let handle = rt.handle().clone();
+        let stop = ticker_stop.clone();
+        std::thread::Builder::new().name(format!("{prefix}tick")).spawn(move || {
+            // the empty tasks are freed by the campaign's workers: allocate them under the
+            // same tag, or the campaign's net heap would drift downwards
+            alloc_count::set_thread_tag(id);
+            let t0 = Instant::now();
+            let mut abort = Some(abort_tx);
+            while !stop.load(Ordering::Relaxed) {
+                handle.spawn(async {});
+                if t0.elapsed() > watchdog {
+                    if let Some(a) = abort.take() {
+                        let _ = a.send(());
+                    }
+                }
+                std::thread::sleep(Duration::from_millis(5));
+            }
+        })
+    };
     let res = std::panic::catch_unwind(std::panic::AssertUnwindSafe(|| {
         rt.block_on(async move {
             let c2 = canary.clone();
@@ -171,9 +250,16 @@ fn run_one_campaign(id: usize, tier: Tier, seed: u64, spec: &Spec) -> Out {
                     c2.fetch_add(1, Ordering::Relaxed);
                 }
             });
-            tokio::time::timeout(watchdog, body(camp)).await
+            tokio::select! {
+                r = body(camp) => Ok(r),
+                _ = abort_rx => Err(()),
+            }
         })
     }));
+    ticker_stop.store(true, Ordering::Relaxed);
+    if let Ok(t) = ticker {
+        let _ = t.join();
+    }
     // let detached rustrtc tasks finish what they are doing before the verdict
     std::thread::sleep(Duration::from_millis(150));
     let panics: Vec<PanicSite> = LIVE_PANICS
@@ -184,6 +270,19 @@ fn run_one_campaign(id: usize, tier: Tier, seed: u64, spec: &Spec) -> Out {
         .collect();
     rt.shutdown_timeout(Duration::from_millis(500));
     alloc_count::set_thread_tag(0);
+    // (iv) blocks above 256 KiB + 64·L (L as it was when the block was requested); resolved
+    // here, on the now untagged driver thread
+    let largest_block = alloc_count::tag_max_single(id);
+    let big_total = alloc_count::tag_big_events(id);
+    alloc_count::set_tag_big_threshold(id, usize::MAX);
+    let big: Vec<(usize, usize, usize, Option<String>, String)> = alloc_count::take_big_allocs(id)
+        .into_iter()
+        .map(|b| {
+            let bt = b.backtrace.to_string();
+            let site = super::totality::rustrtc_frame_of_backtrace(&bt);
+            (b.size, b.threshold, b.live_before, site, b.thread)
+        })
+        .collect();
     let target = spec.target;
     let (camp, end) = match res {
         Ok(Ok((c, e))) => (Some(c), e),
@@ -232,6 +331,38 @@ fn run_one_campaign(id: usize, tier: Tier, seed: u64, spec: &Spec) -> Out {
     }
     if let Some(h) = heap_v {
         viols.push(h);
+    }
+    *out.counters.entry(format!("live.largest_single_alloc_bytes[{target}]_max")).or_insert(0) = largest_block as u64;
+    let mut big_sites: BTreeMap<String, (usize, usize, usize, u64)> = BTreeMap::new();
+    for (size, threshold, live_before, site, thread) in &big {
+        match site {
+            Some(site) => {
+                let e = big_sites.entry(site.clone()).or_insert((0, *threshold, *live_before, 0));
+                if *size > e.0 || (*size == e.0 && *threshold < e.1) {
+                    e.0 = *size;
+                    e.1 = *threshold;
+                    e.2 = *live_before;
+                }
+                e.3 += 1;
+            }
+            None => {
+                // requested by the harness itself (input generators, bookkeeping): not rustrtc's
+                *out.counters.entry("live.big_blocks_requested_by_harness".into()).or_insert(0) += 1;
+                out.seen.push(("live.big_blocks_requested_by_harness".into(), format!("{target}: {} KiB on {thread}", size / 1024)));
+            }
+        }
+    }
+    if big_total > big.len() {
+        *out.counters.entry("live.big_blocks_not_recorded".into()).or_insert(0) += (big_total - big.len()) as u64;
+    }
+    for (site, (size, threshold, live_before, n)) in big_sites {
+        let l = threshold.saturating_sub(single_alloc_bound(0) + 2 * live_before) / SINGLE_ALLOC_FACTOR;
+        viols.push((
+            format!("entry=live:{target},bigalloc={site}"),
+            format!("rustrtc code at {site} requested a single block of {size} bytes while the campaign had fed inputs of at most {l} bytes each and held {live_before} bytes of live heap (bound 256KiB+64*L+2*H = {threshold}); {n} such request(s)"),
+            json!({"kind":"bloat","single_block":size,"max_input_len":l,"live_heap_before":live_before,"bound":threshold,"site":site,
+                   "requests":n,"last_inputs_newest_first":recent_hex}),
+        ));
     }
     match end {
         End::Live => {}
@@ -531,7 +662,21 @@ pub fn hostile_dtls(corpus: &[Vec<u8>], bodies: &[(u8, u16, Vec<u8>)], r: &mut R
                 _ => seq,
             };
             let n = body.len() as u32;
-            let (total, off, flen, slice): (u32, u32, u32, Vec<u8>) = match r.below(8) {
+            let (total, off, flen, slice): (u32, u32, u32, Vec<u8>) = match r.below(10) {
+                8 | 9 => {
+                    // *first fragment* (offset 0, a few body bytes) of a message whose header
+                    // declares a huge / lying total_length
+                    let cut = r.usize_below(body.len().min(24) + 1);
+                    let total = match r.below(6) {
+                        0 => 0xff_ffff,
+                        1 => 0xff_fffe,
+                        2 => 0x80_0000,
+                        3 => 0x10_0000 + (r.u32() & 0xf_ffff),
+                        4 => 0x1_0000 + (r.u32() & 0xffff),
+                        _ => r.u32() & 0xff_ffff,
+                    };
+                    (total, 0, cut as u32, body[..cut].to_vec())
+                }
                 0 => (n.wrapping_add(r.range(1, 70000) as u32) & 0xff_ffff, 0, n, body.clone()),
                 1 => {
                     let cut = r.usize_below(body.len() + 1);
@@ -572,6 +717,23 @@ pub fn hostile_dtls(corpus: &[Vec<u8>], bodies: &[(u8, u16, Vec<u8>)], r: &mut R
         v[0] = 22;
     }
     v
+}
+
+/// Deterministic block: for every message_seq the victim may currently expect (0..=9 covers the
+/// pre-handshake server / client and every mid-handshake point of a WebRTC handshake) a first
+/// fragment (fragment_offset 0, one or zero body bytes) whose header declares a 24-bit
+/// total_length of 16 MiB − 1 / 8 MiB / 1 MiB. A datagram of 25–26 bytes; a reassembler must
+/// buffer the byte it got, not what the header promises.
+pub fn forged_first_fragments(msg_type: u8, rec_seq0: u64) -> Vec<Vec<u8>> {
+    let mut out = vec![];
+    let mut rs = rec_seq0;
+    for seq in 0u16..10 {
+        for (total, body) in [(0xff_ffffu32, &[0xfeu8][..]), (0x80_0000, &[][..]), (0x10_0000, &[0xfe][..])] {
+            out.push(raw_record(22, 0, rs, &raw_hs(msg_type, total, seq, 0, body.len() as u32, body)));
+            rs += 1;
+        }
+    }
+    out
 }
 
 /// Application-data marker round trip in both directions; true if both arrived.
@@ -635,7 +797,7 @@ fn dtls_body(mut c: Camp) -> Pin<Box<dyn Future<Output = (Camp, End)> + Send>> {
             Err(e) => return (c, End::Inconclusive(e)),
         };
         // re-baseline the heap: the reference handshake and rig set-up are not hostile input
-        c.heap_base = alloc_count::tag_net_bytes(c.id);
+        c.rebaseline();
         let allow_alert = c.scenario["alerts"].as_bool().unwrap_or(false);
         let gentle = c.scenario["gentle"].as_bool().unwrap_or(false);
         macro_rules! victim { () => { if victim_server { &rig.server } else { &rig.client } }; }
@@ -699,9 +861,18 @@ fn dtls_body(mut c: Camp) -> Pin<Box<dyn Future<Output = (Camp, End)> + Send>> {
                     }
                 }
                 if !gentle {
-                    // deterministic boundary inputs first: hello bodies of exactly 34..36 bytes
-                    // (version + random and nothing / almost nothing behind it)
+                    // deterministic boundary inputs first: forged first fragments for every
+                    // message_seq the victim can be waiting for in this state, ...
                     let t = if victim_server { 1u8 } else { 2u8 };
+                    for d in forged_first_fragments(t, 1 << 24) {
+                        inject(&mut c, &rig, d).await;
+                    }
+                    c.count("live.dtls.forged_first_fragments", 30);
+                    // let the victim's task work through them before the long inputs follow
+                    // (the single-allocation bound uses the longest input fed *so far*)
+                    tokio::time::sleep(Duration::from_millis(40)).await;
+                    // ... hello bodies of exactly 34..36 bytes
+                    // (version + random and nothing / almost nothing behind it)
                     for (i, l) in [34usize, 35, 36, 33].iter().enumerate() {
                         let body = vec![0xfeu8; *l];
                         let d = raw_record(22, 0, i as u64, &raw_hs(t, *l as u32, 0, 0, *l as u32, &body));
@@ -709,7 +880,46 @@ fn dtls_body(mut c: Camp) -> Pin<Box<dyn Future<Output = (Camp, End)> + Send>> {
                     }
                     tokio::task::yield_now().await;
                 }
-                for i in 0..n {
+                let frag_flood = c.scenario["flood"].as_str() == Some("fragments");
+                if frag_flood {
+                    // structured flood: thousands of fragments that a reassembler may want to
+                    // keep – consecutive 1-byte fragments of a message that claims 16 MiB, first
+                    // fragments of ever new (future) message_seqs, out-of-order offsets, and
+                    // first fragments that restart the message over and over
+                    let t = if victim_server { 1u8 } else { 2u8 };
+                    let mut rs = 1u64 << 25;
+                    let mut frags: Vec<Vec<u8>> = vec![];
+                    for seq in 0u16..3 {
+                        for off in 0..n as u32 / 6 {
+                            frags.push(raw_hs(t, 0xff_ffff, seq, off, 1, &[0xfe]));
+                        }
+                    }
+                    for seq in 1..=(n as u16 / 2) {
+                        frags.push(raw_hs(t, 3000, seq, 0, 100, &[0xab; 100]));
+                    }
+                    for i in 0..n as u32 / 4 {
+                        let seq = (i % 3) as u16;
+                        let total = 0x1_0000 + (i & 0xfff);
+                        let off = c.rng.below(total as u64) as u32;
+                        frags.push(raw_hs(t, total, seq, off, 32, &[0xcd; 32]));
+                        frags.push(raw_hs(t, total, seq, 0, 200, &[0xef; 200]));
+                    }
+                    c.count("live.dtls.flood_fragments", frags.len() as u64);
+                    let mut i = 0;
+                    while i < frags.len() {
+                        // several handshake fragments per record, like a genuine flight
+                        let k = 1 + c.rng.usize_below(4);
+                        let mut payload = vec![];
+                        for f in frags[i..(i + k).min(frags.len())].iter() { payload.extend_from_slice(f); }
+                        i += k;
+                        let d = raw_record(22, 0, rs, &payload);
+                        rs += 1;
+                        inject(&mut c, &rig, d).await;
+                        if rs % 32 == 0 { tokio::task::yield_now().await; }
+                    }
+                    tokio::time::sleep(Duration::from_millis(50)).await;
+                }
+                for i in 0..(if frag_flood { 0 } else { n }) {
                     let d = hostile_dtls(&corpus_all, &bodies, &mut c.rng, allow_alert, gentle);
                     inject(&mut c, &rig, d).await;
                     if i % 64 == 63 { tokio::task::yield_now().await; }
@@ -760,7 +970,7 @@ fn dtls_body(mut c: Camp) -> Pin<Box<dyn Future<Output = (Camp, End)> + Send>> {
                 if !dtls_marker_probe(&mut rig, 0).await {
                     return (c, End::Inconclusive("baseline marker probe failed".into()));
                 }
-                c.heap_base = alloc_count::tag_net_bytes(c.id);
+                c.rebaseline();
                 if state == "closing" {
                     victim!().dtls.close();
                     tokio::time::sleep(Duration::from_millis(30)).await;
@@ -868,6 +1078,13 @@ pub struct SctpView {
     pub hb_acks: Vec<Vec<u8>>,
     pub chunk_types_seen: Vec<u8>,
     pub victim_init_tsn: u32,
+    /// SACKs seen from the victim, and how many TSNs the gap blocks of the latest one cover
+    pub sacks: u64,
+    pub last_sack_gap_tsns: u32,
+    pub last_sack_rwnd: u32,
+    /// lowest / highest TSN of DATA chunks the victim emitted
+    pub data_lo: Option<u32>,
+    pub data_hi: Option<u32>,
 }
 
 /// Parse what the victim emitted (harness-own reader, tolerant).
@@ -910,6 +1127,25 @@ pub fn sctp_observe(view: &mut SctpView, pkt: &[u8]) {
             }
             3 if val.len() >= 4 => {
                 view.victim_cum_ack = u32::from_be_bytes([val[0], val[1], val[2], val[3]]);
+                view.sacks += 1;
+                if val.len() >= 12 {
+                    view.last_sack_rwnd = u32::from_be_bytes([val[4], val[5], val[6], val[7]]);
+                    let ngap = u16::from_be_bytes([val[8], val[9]]) as usize;
+                    let mut covered = 0u32;
+                    for g in 0..ngap {
+                        let o = 12 + 4 * g;
+                        if o + 4 > val.len() { break; }
+                        let a = u16::from_be_bytes([val[o], val[o + 1]]) as u32;
+                        let b = u16::from_be_bytes([val[o + 2], val[o + 3]]) as u32;
+                        if b >= a { covered += b - a + 1; }
+                    }
+                    view.last_sack_gap_tsns = covered;
+                }
+            }
+            0 if val.len() >= 4 => {
+                let t = u32::from_be_bytes([val[0], val[1], val[2], val[3]]);
+                if view.data_lo.is_none() { view.data_lo = Some(t); }
+                view.data_hi = Some(t);
             }
             5 => view.hb_acks.push(val.to_vec()),
             10 => view.got_cookie_echo = true,
@@ -1133,6 +1369,351 @@ async fn sctp_heartbeat_probe(s: &mut SctpRig, n: u64) -> bool {
     false
 }
 
+
+// ------------------------------------------------------------------ SCTP structured floods
+//
+// Byte-level mutation of valid packets almost never builds a long *consistent* history (hundreds
+// of DATA chunks with consecutive TSNs behind one withheld TSN, hundreds of channels, ...), so the
+// rarely taken "a bounded structure reached its cap" branches stay unexercised. The floods below
+// are such histories, sent through the genuine peer's DTLS with correct CRC and verification
+// tag by a sender that ignores a_rwnd. Monitors and verdict rules are those of every other
+// campaign: panic, HEARTBEAT → HEARTBEAT-ACK liveness after each flood, heap growth, largest
+// single allocation.
+
+/// Send `chunks` packed into packets of at most ~1180 bytes of chunk data.
+async fn flood_send(c: &mut Camp, s: &mut SctpRig, vtag: u32, chunks: &[Vec<u8>]) {
+    let mut cur: Vec<u8> = Vec::new();
+    let mut npk = 0usize;
+    let n = chunks.len();
+    for (i, ch) in chunks.iter().enumerate() {
+        if !cur.is_empty() && cur.len() + ch.len() > 1180 {
+            let p = sctp_packet(5000, 5000, vtag, &cur, true);
+            c.fed_quiet(&p, npk % 32 == 0);
+            sctp_send(s, p).await;
+            cur.clear();
+            npk += 1;
+            // pace: the loopback socket buffer must not overflow (a lost packet only makes
+            // the history shorter, never wrong)
+            if npk % 4 == 0 { tokio::task::yield_now().await; }
+            if npk % 16 == 0 {
+                tokio::time::sleep(Duration::from_millis(2)).await;
+                drain_view(s).await;
+            }
+        }
+        cur.extend_from_slice(ch);
+        if i + 1 == n {
+            let p = sctp_packet(5000, 5000, vtag, &cur, true);
+            c.fed(&p);
+            sctp_send(s, p).await;
+        }
+    }
+    c.count("live.sctp.flood.chunks_sent", n as u64);
+    tokio::time::sleep(Duration::from_millis(30)).await;
+    drain_view(s).await;
+}
+
+/// Elicit a SACK (a DATA chunk at the victim's last known cumulative TSN is a duplicate and is
+/// answered at once) and return the victim's cumulative TSN ack.
+async fn flood_sync_cum(s: &mut SctpRig) -> Option<u32> {
+    for _ in 0..5 {
+        drain_view(s).await;
+        let before = s.view.sacks;
+        let val = data_value(s.view.victim_cum_ack, 1, 0, 51, b"s");
+        let tag = s.view.victim_tag;
+        sctp_send(s, sctp_packet(5000, 5000, tag, &chunk(0, 0x07, &val), true)).await;
+        if wait_view(s, 400, |v| v.sacks > before).await {
+            // a second round trip: the first SACK may describe the state before a jump
+            let before = s.view.sacks;
+            let val = data_value(s.view.victim_cum_ack, 1, 0, 51, b"s");
+            sctp_send(s, sctp_packet(5000, 5000, tag, &chunk(0, 0x07, &val), true)).await;
+            let _ = wait_view(s, 400, |v| v.sacks > before).await;
+            return Some(s.view.victim_cum_ack);
+        }
+    }
+    None
+}
+
+/// The HEARTBEAT probe failed: did the association report an end (clean, accepted), or does it
+/// claim to be alive (unresponsive)? The accessors take association locks, so they run on a
+/// blocking thread with a bound: a dead-locked association must never block the driver.
+async fn sctp_silent_end(c: &mut Camp, s: &SctpRig, what: &str) -> End {
+    let sctp = s.sctp.clone();
+    let reason = tokio::time::timeout(Duration::from_secs(3), tokio::task::spawn_blocking(move || sctp.close_reason())).await;
+    let sctp = s.sctp.clone();
+    let info = tokio::time::timeout(Duration::from_secs(3), tokio::task::spawn_blocking(move || sctp.diagnostic_info())).await;
+    let info = match info { Ok(Ok(i)) => i, _ => "(diagnostic_info did not return)".to_string() };
+    let ds = state_name(&s.rig.server.dtls.get_state());
+    let reason = match reason { Ok(Ok(r)) => r, _ => None };
+    if reason.is_none() && ds == "Connected" && c.canary_ok(Duration::from_millis(200)).await {
+        // (DTLS below is still Connected: this is SCTP's silence)
+        End::Unresponsive(format!("HEARTBEAT unanswered 5x after {what}, close_reason=None, DTLS Connected, info={info}"))
+    } else {
+        End::CleanEnd(format!("close_reason={reason:?} dtls={ds} after {what}"))
+    }
+}
+
+/// Liveness after a flood; `Some(end)` stops the campaign.
+async fn flood_probe(c: &mut Camp, s: &mut SctpRig, probes: &mut u64, what: &str) -> Option<End> {
+    *probes += 1;
+    if sctp_heartbeat_probe(s, 1000 + *probes).await {
+        c.count("live.sctp.flood.heartbeat_probes_ok", 1);
+        return None;
+    }
+    Some(sctp_silent_end(c, s, &format!("flood '{what}'")).await)
+}
+
+async fn drain_dc(dc: &Arc<DataChannel>) -> u64 {
+    use futures::FutureExt;
+    let mut n = 0;
+    while let Some(Some(_)) = dc.recv().now_or_never() {
+        n += 1;
+        if n > 100_000 { break; }
+    }
+    n
+}
+
+/// One structured flood against an association in the state the campaign reached.
+async fn sctp_flood(c: &mut Camp, s: &mut SctpRig, kind: &str, n: usize) -> End {
+    let mut probes = 0u64;
+    macro_rules! probe { ($what:expr) => { if let Some(e) = flood_probe(c, s, &mut probes, $what).await { return e; } }; }
+    macro_rules! sync { () => { match flood_sync_cum(s).await { Some(x) => x, None => {
+        // no SACK for a DATA chunk: decide through the liveness probe whether that is a hang
+        probe!("tsn-sync");
+        return End::Inconclusive("victim answers HEARTBEAT but sent no SACK for a DATA chunk".into());
+    } } }; }
+    match kind {
+        "ooo_data" => {
+            // (i) n DATA chunks with consecutive TSNs behind ONE withheld TSN: the out-of-order
+            // queue is driven to and past whatever cap it has; then the hole is filled.
+            // (payload bytes, flags, number of streams, ordered SSNs)
+            let variants: [(usize, u8, u16, &str); 6] = [
+                (1, 0x07, 1, "1B unordered, one stream"),
+                (1, 0x03, 300, "1B ordered, 300 streams"),
+                (100, 0x07, 1, "100B unordered, stream 0"),
+                (1000, 0x03, 1, "1000B ordered, stream 0"),
+                (16, 0x02, 1, "B-fragments that never end"),
+                (16, 0x00, 7, "middle fragments, 7 streams"),
+            ];
+            for (vi, (plen, flags, nstreams, label)) in variants.iter().enumerate() {
+                let cum = sync!();
+                let hole = cum.wrapping_add(1);
+                let count = n + 16 * vi;
+                let mut chunks = vec![];
+                for i in 0..count {
+                    let tsn = hole.wrapping_add(1 + i as u32);
+                    let sid = if *nstreams == 1 { if *plen >= 100 { 0 } else { 1 } } else { 1 + (i as u16 % *nstreams) };
+                    let ssn = (i as u16) / *nstreams;
+                    chunks.push(chunk(0, *flags, &data_value(tsn, sid, ssn, 51, &vec![b'x'; *plen])));
+                }
+                let tag = s.view.victim_tag;
+                flood_send(c, s, tag, &chunks).await;
+                let stored = s.view.last_sack_gap_tsns;
+                c.seen("live.sctp.flood.ooo_queue_depth_reported_by_sack", format!("{label}: sent {count}, gap blocks cover {stored}, a_rwnd {}", s.view.last_sack_rwnd));
+                if stored > 512 { c.count("live.sctp.flood.ooo_variants_past_512", 1); }
+                probe!(label);
+                // fill the hole: everything queued is delivered in one go
+                let val = data_value(hole, 1, 0, 51, b"h");
+                sctp_send(s, sctp_packet(5000, 5000, tag, &chunk(0, 0x07, &val), true)).await;
+                tokio::time::sleep(Duration::from_millis(30)).await;
+                probe!("hole filled");
+                let _ = drain_dc(&s.dc0).await;
+            }
+            // ordered messages with consecutive TSNs (in order) but a withheld SSN: the
+            // per-stream reordering buffer is what fills up
+            let cum = sync!();
+            let mut chunks = vec![];
+            for i in 0..n {
+                chunks.push(chunk(0, 0x03, &data_value(cum.wrapping_add(1 + i as u32), 0, 0x4001u16.wrapping_add(i as u16), 51, b"ssn-gap")));
+            }
+            let tag = s.view.victim_tag;
+            flood_send(c, s, tag, &chunks).await;
+            probe!("withheld SSN");
+            let _ = drain_dc(&s.dc0).await;
+        }
+        "dup_tsn" => {
+            // (ii) the same TSN thousands of times: at / below the cumulative ack, and a queued one
+            let cum = sync!();
+            let tag = s.view.victim_tag;
+            let mut chunks = vec![];
+            for i in 0..n * 3 {
+                let tsn = match i % 3 { 0 => cum, 1 => cum.wrapping_sub(1 + (i as u32 % 50)), _ => cum.wrapping_add(5) };
+                chunks.push(chunk(0, 0x07, &data_value(tsn, 1, 0, 51, b"dup")));
+            }
+            flood_send(c, s, tag, &chunks).await;
+            probe!("duplicate TSNs");
+            // a packet full of duplicates of ONE chunk, repeated
+            let one = chunk(0, 0x07, &data_value(cum.wrapping_add(9), 1, 0, 51, b"dup"));
+            let chunks: Vec<Vec<u8>> = (0..n * 2).map(|_| one.clone()).collect();
+            flood_send(c, s, tag, &chunks).await;
+            probe!("one chunk repeated");
+        }
+        "sack" => {
+            // (iii) the victim has data in flight; SACKs with hundreds of gap blocks, wild
+            // cumulative acks and duplicate lists
+            for i in 0..40u32 {
+                let sctp = s.sctp.clone();
+                tokio::spawn(async move {
+                    let _ = tokio::time::timeout(Duration::from_secs(5), sctp.send_data(0, format!("in-flight-{i}").as_bytes())).await;
+                });
+            }
+            let _ = wait_view(s, 1500, |v| v.data_hi.is_some()).await;
+            tokio::time::sleep(Duration::from_millis(50)).await;
+            drain_view(s).await;
+            let lo = s.view.data_lo.unwrap_or(s.view.victim_init_tsn);
+            let hi = s.view.data_hi.unwrap_or(lo);
+            c.seen("live.sctp.flood.victim_tsns_in_flight", format!("{}", hi.wrapping_sub(lo).wrapping_add(1)));
+            let tag = s.view.victim_tag;
+            let mut chunks = vec![];
+            for i in 0..n {
+                let cumack = match c.rng.below(10) {
+                    0..=3 => lo.wrapping_sub(1),
+                    4 => lo.wrapping_sub(1 + c.rng.range(1, 100_000) as u32),
+                    5 => lo.wrapping_add(c.rng.below(hi.wrapping_sub(lo) as u64 + 1) as u32),
+                    6 => hi.wrapping_add(c.rng.range(1, 100_000) as u32),
+                    7 => lo.wrapping_add(0x7fff_ffff),
+                    8 => lo.wrapping_add(0x8000_0000),
+                    _ => c.rng.u32(),
+                };
+                let nblocks = *c.rng.pick(&[1usize, 16, 100, 280, 280]);
+                let ndups = if c.rng.chance(1, 4) { c.rng.usize_below(200) } else { 0 };
+                let nblocks = nblocks.min((1160 - 4 * ndups.min(200)) / 4);
+                let mut v = Vec::new();
+                v.extend_from_slice(&cumack.to_be_bytes());
+                v.extend_from_slice(&c.rng.pick(&[0u32, 1, 1500, 131072, 0xffff_ffff]).to_be_bytes());
+                let lie = c.rng.chance(1, 8);
+                v.extend_from_slice(&(if lie { 0xffffu16 } else { nblocks as u16 }).to_be_bytes());
+                v.extend_from_slice(&(if lie { 0xffffu16 } else { ndups as u16 }).to_be_bytes());
+                let pattern = i % 6;
+                for b in 0..nblocks as u32 {
+                    let (a, e): (u32, u32) = match pattern {
+                        0 => (2 + 2 * b, 2 + 2 * b),             // every other TSN
+                        1 => (2 + b, 0xffff),                    // nested, all reaching the end
+                        2 => (0xffff - b, 1 + b),                // inverted
+                        3 => (1, 1 + b),                         // all overlapping from 1
+                        4 => (c.rng.u16() as u32, c.rng.u16() as u32),
+                        _ => (2 + 3 * b, 3 + 3 * b),
+                    };
+                    v.extend_from_slice(&(a as u16).to_be_bytes());
+                    v.extend_from_slice(&(e as u16).to_be_bytes());
+                }
+                for _ in 0..ndups {
+                    v.extend_from_slice(&lo.wrapping_add(c.rng.below(64) as u32).to_be_bytes());
+                }
+                chunks.push(chunk(3, 0, &v));
+            }
+            flood_send(c, s, tag, &chunks).await;
+            probe!("SACK flood");
+        }
+        "fwd_tsn" => {
+            // (iv) FORWARD-TSN with hundreds of stream entries; small steps over a filled
+            // out-of-order queue, then far ahead
+            let cum = sync!();
+            let tag = s.view.victim_tag;
+            let hole = cum.wrapping_add(1);
+            let mut chunks = vec![];
+            for i in 0..300u32 {
+                chunks.push(chunk(0, 0x03, &data_value(hole.wrapping_add(1 + 2 * i), 1 + (i % 280) as u16, (i / 280) as u16 + 1, 51, b"fwd")));
+            }
+            flood_send(c, s, tag, &chunks).await;
+            let entries = |k: u32, ssn: u16| -> Vec<u8> {
+                let mut v = vec![];
+                for sid in 0..k { v.extend_from_slice(&(sid as u16).to_be_bytes()); v.extend_from_slice(&ssn.to_be_bytes()); }
+                v
+            };
+            let mut chunks = vec![];
+            for step in 0..n as u32 {
+                let mut v = hole.wrapping_add(step).to_be_bytes().to_vec();
+                v.extend_from_slice(&entries(*c.rng.pick(&[0u32, 1, 280, 290]), *c.rng.pick(&[0u16, 1, 2, 0x7fff, 0x8000, 0xffff])));
+                chunks.push(chunk(192, 0, &v));
+            }
+            flood_send(c, s, tag, &chunks).await;
+            probe!("FORWARD-TSN steps");
+            for ahead in [1000u32, 100_000, 0x7fff_fff0, 0x7fff_ffff, 0x8000_0000, 0xffff_ffff] {
+                let cum = sync!();
+                let mut v = cum.wrapping_add(ahead).to_be_bytes().to_vec();
+                v.extend_from_slice(&entries(290, (ahead & 0xffff) as u16));
+                let tag = s.view.victim_tag;
+                flood_send(c, s, tag, &[chunk(192, 0, &v)]).await;
+                probe!("FORWARD-TSN far ahead");
+            }
+        }
+        "init_cookie" => {
+            // (v) INIT flood (distinct tags, parameter lists of every size), then COOKIE-ECHO
+            // flood (the genuine cookie replayed, stale cookies, random ones)
+            let mut chunks = vec![];
+            for i in 0..n as u32 {
+                let mut params = vec![];
+                let np = match i % 5 { 0 => 0, 1 => 1, 2 => 8, 3 => 120, _ => 280 };
+                for k in 0..np {
+                    match (i + k) % 4 {
+                        0 => params.extend_from_slice(&param(0xC000, 4, &[])),
+                        1 => params.extend_from_slice(&param(0x8008, 4 + 3, &[0xC0, 0x82, 0x0F])),
+                        2 => params.extend_from_slice(&param(0x8000 | (k as u16 & 0xff), 4, &[])),
+                        _ => params.extend_from_slice(&param(0xC000 | (k as u16 & 0xff), 8, &[1, 2, 3, 4])),
+                    }
+                    if params.len() > 1100 { break; }
+                }
+                let v = init_value(0x5000_0000 + i, *c.rng.pick(&[0u32, 1500, 131072, 0xffff_ffff]), 10, 10, c.rng.u32(), &params);
+                chunks.push(chunk(1, 0, &v));
+            }
+            // one INIT per packet (an INIT must be alone in its packet)
+            for (i, ch) in chunks.iter().enumerate() {
+                let p = sctp_packet(5000, 5000, 0, ch, true);
+                c.fed_quiet(&p, i % 64 == 0);
+                sctp_send(s, p).await;
+                if i % 8 == 7 { tokio::time::sleep(Duration::from_millis(1)).await; drain_view(s).await; }
+            }
+            c.count("live.sctp.flood.chunks_sent", chunks.len() as u64);
+            tokio::time::sleep(Duration::from_millis(200)).await;
+            drain_view(s).await;
+            probe!("INIT flood");
+            let genuine = s.view.cookie.clone();
+            for i in 0..n {
+                let ck = match i % 4 {
+                    0 => genuine.clone(),
+                    1 => { let mut k = genuine.clone(); if let Some(b) = k.last_mut() { *b ^= 1; } k }
+                    2 => { let l = c.rng.usize_below(1100); c.rng.bytes(l) }
+                    _ => genuine[..genuine.len().min(i % 64)].to_vec(),
+                };
+                let p = sctp_packet(5000, 5000, s.view.victim_tag, &chunk(10, 0, &ck), true);
+                c.fed_quiet(&p, i % 64 == 0);
+                sctp_send(s, p).await;
+                if i % 8 == 7 { tokio::time::sleep(Duration::from_millis(1)).await; drain_view(s).await; }
+            }
+            c.count("live.sctp.flood.chunks_sent", n as u64);
+            tokio::time::sleep(Duration::from_millis(200)).await;
+            drain_view(s).await;
+            probe!("COOKIE-ECHO flood");
+        }
+        "dcep_open" => {
+            // (vi) DCEP OPEN on hundreds of stream ids (in-order TSNs), then one id over and over
+            let cum = sync!();
+            let tag = s.view.victim_tag;
+            let mut chunks = vec![];
+            for i in 0..n as u32 {
+                let sid = if i < (n as u32 * 2) / 3 { 1 + i as u16 } else { 7 };
+                let open = rustrtc::transports::datachannel::DataChannelOpen {
+                    message_type: 3,
+                    channel_type: *c.rng.pick(&[0u8, 1, 2, 0x80, 0x81, 0x82]),
+                    priority: 0,
+                    reliability_parameter: c.rng.u32(),
+                    label: format!("flood-{i}"),
+                    protocol: if i % 50 == 0 { "p".repeat(900) } else { String::new() },
+                }.marshal();
+                let flags = if i % 2 == 0 { 0x03 } else { 0x07 };
+                chunks.push(chunk(0, flags, &data_value(cum.wrapping_add(1 + i), sid, 0, 50, &open)));
+            }
+            flood_send(c, s, tag, &chunks).await;
+            tokio::time::sleep(Duration::from_millis(100)).await;
+            drain_view(s).await;
+            c.seen("live.sctp.flood.victim_cum_ack_advance_after_opens", format!("{}", s.view.victim_cum_ack.wrapping_sub(cum)));
+            probe!("DCEP OPEN flood");
+        }
+        other => return End::Inconclusive(format!("unknown flood kind {other}")),
+    }
+    End::Live
+}
+
 fn sctp_body(mut c: Camp) -> Pin<Box<dyn Future<Output = (Camp, End)> + Send>> {
     Box::pin(async move {
         let state = c.scenario["state"].as_str().unwrap_or("established").to_string();
@@ -1163,7 +1744,7 @@ fn sctp_body(mut c: Camp) -> Pin<Box<dyn Future<Output = (Camp, End)> + Send>> {
         let mut s = SctpRig { rig, sctp, dc0, _channels: channels, new_dc_rx: ndrx, view: SctpView::default() };
         s.view.my_tag = 0x1357_9bdf;
         s.view.next_tsn = 1000;
-        c.heap_base = alloc_count::tag_net_bytes(c.id);
+        c.rebaseline();
         // bring the victim into the requested state with a genuine exchange
         let reached: Result<(), String> = async {
             if victim_is_client {
@@ -1198,7 +1779,17 @@ fn sctp_body(mut c: Camp) -> Pin<Box<dyn Future<Output = (Camp, End)> + Send>> {
         let mut end = End::Live;
         let mut probes = 0;
         let mut data_ok = 0u64;
-        for i in 0..n {
+        let flood = c.scenario["flood"].as_str().map(|x| x.to_string());
+        if let Some(kind) = &flood {
+            drain_view(&mut s).await;
+            // (before the first INIT the victim knows no peer tag and cannot answer a HEARTBEAT)
+            if state != "closed" && !sctp_heartbeat_probe(&mut s, 999).await {
+                return (c, End::Inconclusive("baseline HEARTBEAT probe failed before the flood".into()));
+            }
+            end = sctp_flood(&mut c, &mut s, kind, n).await;
+            c.count(&format!("live.sctp.flood.campaigns[{kind}]"), 1);
+        }
+        for i in 0..(if flood.is_some() { 0 } else { n }) {
             let p = hostile_sctp(&s.view, &mut c.rng, teardown);
             c.fed(&p);
             sctp_send(&s, p).await;
@@ -1207,14 +1798,7 @@ fn sctp_body(mut c: Camp) -> Pin<Box<dyn Future<Output = (Camp, End)> + Send>> {
                 if state == "closing" { continue; }
                 probes += 1;
                 if !sctp_heartbeat_probe(&mut s, probes).await {
-                    let reason = s.sctp.close_reason();
-                    let ds = state_name(&s.rig.server.dtls.get_state());
-                    end = if reason.is_none() && ds == "Connected" && c.canary_ok(Duration::from_millis(200)).await {
-                        // is the DTLS layer below still alive? if not, this is not SCTP's silence
-                        End::Unresponsive(format!("HEARTBEAT unanswered 5x after {} inputs, close_reason=None, DTLS Connected, info={}", i + 1, s.sctp.diagnostic_info()))
-                    } else {
-                        End::CleanEnd(format!("close_reason={reason:?} dtls={ds} after {} inputs", i + 1))
-                    };
+                    end = sctp_silent_end(&mut c, &s, &format!("{} inputs", i + 1)).await;
                     break;
                 }
                 // secondary observation (not a verdict): an unordered message on the negotiated
@@ -1236,7 +1820,10 @@ fn sctp_body(mut c: Camp) -> Pin<Box<dyn Future<Output = (Camp, End)> + Send>> {
             c.seen("live.sctp.victim_chunk_types_emitted", format!("{state}:{t}"));
         }
         heap_verdict(&mut c, "sctp");
-        s.sctp.close();
+        // close() takes an association lock: fire and forget, a dead-locked association must
+        // not block the driver
+        let sctp = s.sctp.clone();
+        tokio::task::spawn_blocking(move || sctp.close());
         s.rig.client.dtls.close();
         s.rig.server.dtls.close();
         (c, end)
@@ -1270,12 +1857,21 @@ fn specs(args: &Args) -> Vec<Spec> {
         push("dtls", dtls_body, json!({"state":"established","victim":victim,"n":nd/2,"alerts":true}));
         push("dtls", dtls_body, json!({"state":"closing","victim":victim,"n":nd/2,"alerts":true}));
         push("dtls", dtls_body, json!({"state":"seqflood","victim":victim,"n":1311}));
+        push("dtls", dtls_body, json!({"state":"pre","victim":victim,"n":nd,"flood":"fragments"}));
+        push("dtls", dtls_body, json!({"state":"mid","victim":victim,"k":1,"n":nd,"flood":"fragments"}));
     }
     let ns = if q { 6000 } else { 40000 };
     for st in ["closed", "cookie_pending", "established", "established", "cookie_wait", "cookie_echoed", "established_client", "closing"] {
         push("sctp", sctp_body, json!({"state":st,"n":ns}));
     }
     push("sctp", sctp_body, json!({"state":"established","n":ns/2,"teardown":true}));
+    // structured floods (histories that reach the caps of bounded structures)
+    let nf = if q { 640 } else { 3000 };
+    for kind in ["ooo_data", "dup_tsn", "sack", "fwd_tsn", "init_cookie", "dcep_open"] {
+        push("sctp", sctp_body, json!({"state":"established","flood":kind,"n":nf}));
+    }
+    push("sctp", sctp_body, json!({"state":"closed","flood":"init_cookie","n":nf}));
+    push("sctp", sctp_body, json!({"state":"established_client","flood":"ooo_data","n":nf}));
     super::totality_live2::more_specs(args, &mut push);
     v
 }
@@ -1283,6 +1879,9 @@ fn specs(args: &Args) -> Vec<Spec> {
 pub fn stage2(args: &Args, report: &mut Report) {
     LIVE_MODE.store(true, Ordering::SeqCst);
     LIVE_PANICS.lock().clear();
+    if let Some(k) = args.opt("--single-alloc-slack-kib").and_then(|x| x.parse::<usize>().ok()) {
+        SINGLE_ALLOC_SLACK_OVERRIDE.store(k.max(1) << 10, Ordering::Relaxed);
+    }
     let specs = specs(args);
     let only = args.opt("--target");
     let specs: Vec<Spec> = specs.into_iter().filter(|s| only.as_deref().map(|o| o == s.target).unwrap_or(true)).collect();
